@@ -44,7 +44,7 @@ def check(ctx):
     proved = ctx.prove("props/C16.v", ["proofs/PolyDomainFacts.v", "proofs/TermFacts.v", "proofs/IfaceFacts.v", "proofs/TermGenRename.v", "proofs/TermGenRemove.v", "proofs/TermGenCore.v", "proofs/WrapGenRename.v"])
     ctx.build(["model/PolyDomain.vo", "base/Farkas.vo"])
     rng = random.Random(ctx.seed + 16)
-    n = (200 if ctx.quick else 4000) * (1 if proved else 3)
+    n = (200 if ctx.quick else 20000) * (1 if proved else 3)
     exprs, cases, seen = [], [], set()
     hist = {}
     for k in range(n):
